@@ -124,6 +124,12 @@ impl Indexable for ast::Include {
             return None;
         };
 
+        // like an include guard: a file included again (along another path, or by a cycle)
+        // contributes its declarations once
+        if !ctx.indexed_files.insert(include_file_id) {
+            return None;
+        }
+
         let parse = ctx.db.parse(include_file_id);
         let source_file = ast::SourceFile::cast(parse.syntax_node())?;
 
